@@ -24,5 +24,6 @@ fn main() {
     let max_ops = ctx.n(80, 400) as usize;
     ctx.prop_split("histories", "treap-history", ctx.n(30_000, 1_000_000), ctx.parts(), case(max_ops).boxed(), run_case);
     ctx.prop_split("short-histories", "treap-history", ctx.n(30_000, 300_000), ctx.parts(), case(12).boxed(), run_case);
+    ctx.prop_split("long-sequences", "treap-history", ctx.n(250, 4_000), ctx.parts(), case_large(ctx.n(1_500, 6_000) as u16, 24).boxed(), run_case);
     ctx.finish();
 }
